@@ -31,6 +31,7 @@ type sctx struct {
 	flavors []string // names defined so far (their defining forms are in defs)
 	defs    map[string][]string
 	funs    []string
+	exports bool   // packages may export names (def mode)
 	plain   bool   // no quoted-data or computed defaults (the item's instances are load-formed)
 	placed  string // feature placed by a helper on the item being built
 	nflavor int
@@ -810,7 +811,10 @@ func (s *sctx) packageItem(content string) Item {
 	}
 	vname := "*" + name + "-var*"
 	fname := name + "-fun"
-	if r.IntN(2) == 0 {
+	// exporting a name makes an (unbound) variable of it, which a snapshot
+	// writes as a defvar in the user package: in sessions that is in the
+	// avoid set (package-export), like any variable of a user package
+	if (s.exports && r.IntN(2) == 0) || content == "package-export" {
 		opts = append(opts, fmt.Sprintf("(:export %s %s)", litString(vname), litString(fname)))
 	}
 	if doc := docOpt(r); doc != "" {
@@ -870,6 +874,7 @@ func buildDefCase(r *rand.Rand, kind, feat string) Case {
 	var it Item
 	switch kind {
 	case "package":
+		s.exports = true
 		it = s.packageItem("")
 	case "flavor":
 		if feat == "flavor-parent" {
@@ -905,7 +910,7 @@ var sessionFeats = []string{
 	"var-symbol-value", "var-hash-unquoted", "var-hash-key-dropped", "var-fill-pointer",
 	"var-array-attrs", "var-long-float", "var-hash-multi", "flavor-inittable-subset",
 	"const-list-value", "const-symbol-value", "flavor-default-unquoted",
-	"package-var", "package-fun", "fun-backquote", "macro-backquote", "fun-doc-wraps", "doc-wraps",
+	"package-var", "package-fun", "package-export", "fun-backquote", "macro-backquote", "fun-doc-wraps", "doc-wraps",
 }
 
 func genSessionCase(r *rand.Rand) Case {
